@@ -35,6 +35,9 @@ type c12Case struct {
 	Gen    *c12P  `json:"generated,omitempty"`
 	Driver string `json:"driver"`
 	Config string `json:"config"`
+	// parameters of the spec that SuppressTransportParameters keeps off the wire (and thereby out of what the
+	// client has advertised)
+	Suppress []uint64 `json:"suppress,omitempty"`
 }
 
 // c12P is a generated transport parameter list (0 = parameter absent)
@@ -102,6 +105,17 @@ func TestVerifC12Limits(t *testing.T) {
 			}
 		}
 	}
+	// parameters the spec lists but SuppressTransportParameters keeps off the wire: what was not sent is not
+	// advertised (idle timeout disabled, default connection ID limit, no datagrams)
+	for _, id := range []string{"Chrome_115_IPv4", "Firefox_116A", "Chrome_146_IPv4"} {
+		for _, sup := range [][]uint64{{0x01}, {0x20}, {0x0e}, {0x01, 0x20, 0x0e, 0x03, 0x0b}} {
+			for _, d := range []string{"idle", "datagram", "cids", "stream-uni", "max-streams-bidi"} {
+				for _, cf := range []string{"default", "idle90s", "datagrams-on"} {
+					cases = append(cases, c12Case{Name: fmt.Sprintf("%s/%s/%s/suppress%v", id, d, cf, sup), QUICID: id, Driver: d, Config: cf, Suppress: sup})
+				}
+			}
+		}
+	}
 	rng := l.Rand("c12gen")
 	ngen := l.Pick(4000, 150000)
 	for i := 0; i < ngen; i++ {
@@ -113,7 +127,15 @@ func TestVerifC12Limits(t *testing.T) {
 		p.MaxData = pick(4<<10, 64<<10, 1<<20, 4<<20)
 		d := c12Drivers[rng.IntN(len(c12Drivers))]
 		cf := c12Configs[rng.IntN(len(c12Configs))]
-		cases = append(cases, c12Case{Name: fmt.Sprintf("gen/%04d/%s/%s", i, d, cf), Gen: p, Driver: d, Config: cf})
+		gc := c12Case{Name: fmt.Sprintf("gen/%04d/%s/%s", i, d, cf), Gen: p, Driver: d, Config: cf}
+		if rng.IntN(3) == 0 {
+			for _, id := range []uint64{0x01, 0x03, 0x0e, 0x20} {
+				if rng.IntN(2) == 0 {
+					gc.Suppress = append(gc.Suppress, id)
+				}
+			}
+		}
+		cases = append(cases, gc)
 	}
 	for i, cs := range cases {
 		if !l.Mine(i) {
@@ -190,6 +212,7 @@ func runC12(l *evlog.Log, c *evlog.Case, cs *c12Case, idx int) {
 	} else {
 		spec = quic.QUICSpec{ClientHelloSpec: specgen.HelloSpec("small", cs.Gen.list())}
 	}
+	spec.SuppressTransportParameters = cs.Suppress
 	// the server side: huge limits of its own, so that only the client's advertised values bound it
 	sconf := &quic.Config{MaxIdleTimeout: 10 * time.Minute, EnableDatagrams: true, MaxIncomingStreams: 5000, MaxIncomingUniStreams: 5000,
 		InitialStreamReceiveWindow: 8 << 20, MaxStreamReceiveWindow: 16 << 20, InitialConnectionReceiveWindow: 16 << 20, MaxConnectionReceiveWindow: 32 << 20, HandshakeIdleTimeout: 10 * time.Second}
@@ -291,7 +314,19 @@ func runC12(l *evlog.Log, c *evlog.Case, cs *c12Case, idx int) {
 		var diffs []string
 		for _, x := range cmp {
 			if !tp.Has(x.id) {
-				continue // only what is on the wire is compared
+				// not on the wire: the record must show the parameter as not set (zero) or with the protocol's default for an absent parameter
+				def, known := map[uint64]uint64{wiretap.TPMaxIdleTimeout: 0, wiretap.TPMaxUDPPayloadSize: 65527, wiretap.TPInitialMaxData: 0,
+					wiretap.TPInitialMaxStreamDataBL: 0, wiretap.TPInitialMaxStreamDataBR: 0, wiretap.TPInitialMaxStreamDataU: 0, wiretap.TPInitialMaxStreamsBidi: 0,
+					wiretap.TPInitialMaxStreamsUni: 0, wiretap.TPAckDelayExponent: 3, wiretap.TPMaxAckDelay: 25, wiretap.TPActiveConnIDLimit: 2}[x.id]
+				if x.id == wiretap.TPMaxDatagramFrameSize {
+					if rec.MaxDatagramFrameSize > 0 {
+						diffs = append(diffs, fmt.Sprintf("%s: not on the wire, record %d", x.name, rec.MaxDatagramFrameSize))
+					}
+				} else if known && x.got != def && x.got != 0 { // 0: the record's way of saying "not set"
+					diffs = append(diffs, fmt.Sprintf("%s: not on the wire (default %d), record %d", x.name, def, x.got))
+				}
+				l.Count("own_record_absent_fields_compared", 1)
+				continue
 			}
 			if want := tp.Int(x.id, 0); want != x.got {
 				diffs = append(diffs, fmt.Sprintf("%s: wire %d, record %d", x.name, want, x.got))
